@@ -296,17 +296,20 @@ def check_v2_glue(chk, ix):
     f = ix.func("behave.tag_expression.builder:_parse_tag_expression_v2")
     # (a) '@' removed for every input
     got = []
-    it = Interp(ix, stubs={"TagExpressionParser.parse": lambda i, s, a, k, n: (got.append(a[-1]), [(s, "val", "EXPR")])[1],
-                           "re.sub": lambda i, s, a, k, n: [(s, "val", a[-1] if isinstance(a[-1], AtText) else Top("re.sub", True))]},
+    it = Interp(ix, stubs={"TagExpressionParser.parse": lambda i, s, a, k, n: (got.append(a[-1]), [(s, "val", "EXPR")])[1]},
                 name="_parse_tag_expression_v2")
     st = State()
     st.frames = []
     outs = it.run(f, st, [AtText("expression")], {})
     chk.absorb(it)
     chk.instance("T4")
-    bad = [g for g in got if not isinstance(g, AtText) or g.has_at]
+    bad = [g for g in got if isinstance(g, AtText) and g.has_at]
     if got and not bad and all(k == "val" for _, k, _ in outs):
-        chk.ok("T4", {"text_handed_to_parser": "every '@' removed"}, nontrivial_key="at")
+        if all(isinstance(g, AtText) for g in got):
+            chk.ok("T4", {"text_handed_to_parser": "every '@' removed"}, nontrivial_key="at")
+        else:
+            chk.ok("T4", {"text_handed_to_parser": "normalised by something the abstract text does not follow: see the concrete renderings"})
+            chk.notes.append("T4: '@' removal is not a plain replace any more; decided on the concrete renderings only")
     else:
         _fail(chk, "T4", f, "parser receives %r" % (got,), "the text handed to the v2 parser may still contain '@' (%r): an operand written "
               "'@name' would be taken as a tag called '@name' and never match" % (got,))
@@ -334,9 +337,10 @@ def check_v2_glue_concrete(chk, ix):
              (["@a", "@b or @c"], "(a) and (b or c)"), (["not @*.x"], "(not *.x)"), ((), "")]
     for arg, want in cases:
         got = []
-        it = Interp(ix, stubs={"TagExpressionParser.parse": lambda i, s, a, k, n: (got.append(a[-1]), [(s, "val", "EXPR")])[1],
-                               "re.sub": lambda i, s, a, k, n: [(s, "val", _re.sub(*a))]}, name="_parse_tag_expression_v2 concrete")
+        it = Interp(ix, stubs={"TagExpressionParser.parse": lambda i, s, a, k, n: (got.append(a[-1]), [(s, "val", "EXPR")])[1]},
+                    name="_parse_tag_expression_v2 concrete")
         it.int_sat = 50
+        it.fold_regex = True
         st = State()
         st.frames = []
         a = st.alloc(HObj("list", kind="list", items=list(arg))) if isinstance(arg, list) else arg
@@ -615,6 +619,7 @@ def check_autodetect_concrete(chk, ix):
     it = Interp(ix, stubs={"glob.has_magic": lambda i, s, a, k, n: [(s, "val", _glob.has_magic(a[0]))],
                            "has_magic": lambda i, s, a, k, n: [(s, "val", _glob.has_magic(a[0]))]}, name="auto-detect concrete")
     it.int_sat = 100
+    it.fold_regex = True
     it.eager_generators = True
     for text, want in [(t, "_parse_tag_expression_v1") for t in v1] + [(t, "_parse_tag_expression_v2") for t in v2] + \
             [(t, "error") for t in mixed] + [(t, "either") for t in either]:
